@@ -312,3 +312,13 @@ def strftime_year_is_civil_year(p):
     assert cal_abs(q.year, q.month_of_year, q.day_of_month) == date_abs(p)
     assert q.day_of_year == date_abs(p) - dby(q.year)
     assert instant(q) == instant(p) and same_zone(q, p)
+
+
+def dur_text_round_trip(d, parser):
+    # C10: the REAL str and the REAL parse composed (both executed, not summarised)
+    s = str(d)
+    q = parser.parse(s)
+    assert d_same_fields(q, d)
+    assert q == d
+    assert hash(q) == hash(d)
+    assert str(q) == s
